@@ -4,7 +4,7 @@
 From Coq Require Import NArith ZArith List Bool.
 Import ListNotations.
 Require Import UV.C07.Model UV.C07.Check UV.C07.Proofs UV.C07.Replay UV.C07.RecordReplay.
-Require UV.C07.RecordProof UV.C07.RecordProofCyg UV.C07.RecordProofB UV.C07.RecordProofT UV.C07.Range UV.C07.Multi UV.C07.MultiReplay UV.C07.Switch.
+Require UV.C07.RecordProof UV.C07.RecordProofCyg UV.C07.RecordProofB UV.C07.RecordProofT UV.C07.RecordProofD UV.C07.Size UV.C07.Range UV.C07.Multi UV.C07.MultiReplay UV.C07.Switch.
 Local Open Scope Z_scope.
 
 (* get_task_ustack's look-ahead list (time filter -t / time=, caller filter -C, `trace`) hands the
@@ -214,6 +214,32 @@ Theorem C07_record_equals_replay_time_trigger : forall c f,
   rec_then_plain c MC.PG f = plain_then_opt c f.
 Proof. exact RecordProofT.record_equals_replay_time. Qed.
 Print Assumptions C07_record_equals_replay_time_trigger.
+
+(* -Z SIZE / -T f@size=N (analysis time only; tied to the commands at the level of this documented semantics,
+   the fstack model has no symbol sizes): -Z alone shows exactly what -H on every smaller function shows - for
+   which the theorems above say what the commands do - and the tree view used by the checker (small functions
+   spliced out, then the other options) is the event view, size= overrides included. *)
+Theorem C07_size_filter_is_hide : forall szof zs f, (RecordProof.fheight f <= 1024)%nat ->
+  select_size szof (fun _ => None) zs f = select (hide_small szof zs) f.
+Proof. exact Size.size_filter_is_hide. Qed.
+Print Assumptions C07_size_filter_is_hide.
+
+Theorem C07_size_filter_tree_view : forall szof ztr zs f, (RecordProof.fheight f <= 1024)%nat ->
+  map RecordProof.strip (select_z plain szof ztr zs f) = map RecordProof.strip (select_size szof ztr zs f).
+Proof. exact Size.size_filter_tree_view. Qed.
+Print Assumptions C07_size_filter_tree_view.
+
+(* ... and with depth= triggers (-T f@depth=N, N >= 0, also on a function that -N hides), -N, -D and -t on the
+   -pg shape: libmcount's per-frame saved depth budget (and, since /repo c9e77e5, the NORECORD frame a rejected
+   call with a state-changing trigger leaves on the shadow stack) against replay's per-task depth counter that
+   the fstack entry saves and restores.  Without -F: a depth= trigger on a function outside the -F filter
+   fires at record time only (C07_filter_below_depth_trigger_refuted). *)
+Theorem C07_record_equals_replay_depth_trigger : forall c f,
+  RecordProofD.classD c -> plt_free_all c -> no_range c = true -> RecordProof.wf_forest c f ->
+  (RecordProof.fheight f <= 1024)%nat ->
+  map RecordProof.strip (rec_then_plain c MC.PG f) = map RecordProof.strip (plain_then_opt c f).
+Proof. exact RecordProofD.record_equals_replay_depth. Qed.
+Print Assumptions C07_record_equals_replay_depth_trigger.
 
 (* the shared options MIXED (time= / -C / trace together with -F/-N/-D inside the class rr_class_of) and the
    cygprof shape for time= / -C / trace: exhaustive agreement on a bounded
